@@ -2,7 +2,7 @@
 """Developer loop: mutate every statement of the functions a property examined (not only the
 anchored nodes) and list the mutants no obligation notices, grouped by function.
 
-  tools/fn_mutants.py C05 [--max 400]
+  tools/fn_mutants.py C05 [--max 400] [--only REGEX-on-qualified-name]
 
 Many survivors are equivalent or irrelevant (logging, messages); the list is for reading, it is
 not a gate.  Nothing is written to /repo: variants are in-memory overlays.
@@ -124,8 +124,12 @@ def main():
     res = run_property(prop)
     base = _verdict((prop, '__none__', ''))
     ctx = res['ctx']
+    import re as _re
+    only = _re.compile(sys.argv[sys.argv.index('--only') + 1]) if '--only' in sys.argv else None
     by_file = {}
     for f in ctx.functions_touched.values():
+        if only is not None and not only.search(f.qname):
+            continue
         node = getattr(f, 'node', None)
         if node is None or isinstance(node, ast.Lambda):
             continue
